@@ -132,6 +132,9 @@ func TestPipelinedTxn(t *testing.T) {
 		}
 		var log []string
 		fail := func(f string, a ...any) {
+			if sp := cl.StorePanic(); sp != "" {
+				t.Skip("void case: " + sp) // substrate defect (13.6): the case says nothing about the client
+			}
 			t.Fatalf("pipelined transaction: %s\n  case: %s\n  log:\n    %s\n  rpc trace:\n    %s", fmt.Sprintf(f, a...), desc, strings.Join(log, "\n    "), strings.ReplaceAll(cl.Trace.Describe(), "\n", "\n    "))
 		}
 		fellThrough := false
